@@ -169,4 +169,19 @@ example : (decodeBytes (encodeUser [255, 255, 0])).toOption = some (typeUser, [2
     SMap.inRange (bounds [0] [0]).1 (bounds [0] [0]).2 (encodeUser (List.replicate 1024 255)) = true := by
   decide +kernel
 
+/-- **the exclusive upper bound of a prefix / wildcard scan is sound for every byte pattern**: for a
+bound input whose last non-0xFF byte is `t` (followed by any number of 0xFF bytes, preceded by
+anything), `incrementRightmostByte` carries through the 0xFF run, keeps the length, and the result
+is above EVERY key that starts with the input - so no such key drops out of the scan (C12-g
+regression: no carry, the bound fell below the 1020-1024-byte keys that start with 1019 × 0xFF) -/
+theorem c12_increment_above_prefix (p : Bytes) (t : UInt8) (n : Nat) (ht : t + 1 ≠ 0) (s : Bytes) :
+    bytesLt ((p ++ t :: List.replicate n 255) ++ s)
+      (incrementRightmostByte (p ++ t :: List.replicate n 255)) = true :=
+  increment_above_prefix p t n ht s
+
+theorem c12_increment_keeps_length (p : Bytes) (t : UInt8) (n : Nat) (ht : t + 1 ≠ 0) :
+    (incrementRightmostByte (p ++ t :: List.replicate n 255)).length =
+      (p ++ t :: List.replicate n 255).length :=
+  increment_keeps_length p t n ht
+
 end Regatta.Props.C12
